@@ -198,6 +198,9 @@ partial def loop (h : IO.FS.Stream) (s : St) : IO Unit := do
   | [] => loop h s
   | ["setup", b] => IO.println "ok | -"; loop h (St.init (if b == "sql" then .sql else .mem))
   | t =>
+    -- `accept j w held` / `decline j w held`: the caller passes the Welcome value it kept from
+    -- process_welcome; the code decides on the STORED welcome, so the model op is the same
+    let t := if t.getLast? == some "held" then t.dropLast else t
     let (s', out) := exec s t
     IO.println out
     loop h s'
